@@ -202,6 +202,14 @@ func runScript(rq interface{}, sc script, env *scriptEnv) {
 				d = 0
 			case "big":
 				d = 3 * time.Hour
+			case "max":
+				d = time.Duration(math.MaxInt64) // the usual "for ever"
+			case "max-1":
+				d = time.Duration(math.MaxInt64 - 1)
+			case "submilli":
+				d = 999 * time.Microsecond
+			case "odd":
+				d = 1500*time.Millisecond + 1
 			}
 			if r != nil {
 				r.Timeout(d)
@@ -461,7 +469,7 @@ func replyAlphabet(rtype string, htype res.ResourceType) []act {
 
 func otherAlphabet(rtype string) []act {
 	out := []act{
-		{Op: "timeout", K: "ok"}, {Op: "timeout", K: "neg"}, {Op: "timeout", K: "zero"},
+		{Op: "timeout", K: "ok"}, {Op: "timeout", K: "neg"}, {Op: "timeout", K: "zero"}, {Op: "timeout", K: "max"}, {Op: "timeout", K: "max-1"}, {Op: "timeout", K: "submilli"}, {Op: "timeout", K: "odd"},
 		{Op: "event", K: "change", V: "ok"}, {Op: "event", K: "change", V: "empty"}, {Op: "event", K: "change", V: "unmarshalable"},
 		{Op: "event", K: "add", V: "ok"}, {Op: "event", K: "add", V: "neg"},
 		{Op: "event", K: "remove", V: "ok"},
